@@ -147,7 +147,7 @@ func (w *c08World) final(o *c08Out) bool {
 
 func TestC08Rapid(t *testing.T) {
 	rec := evid.For("C08")
-	runRapid(t, 1200, 15000, func(rt *rapid.T) {
+	runRapid(t, 800, 15000, func(rt *rapid.T) {
 		c := rec.Begin()
 		tc := newTwoChain(tcOpts{nExecutors: 1, otherFirst: rapid.IntRange(0, 1).Draw(rt, "otherFirst"), otherAfter: rapid.IntRange(0, 1).Draw(rt, "otherAfter")})
 		w := &c08World{tc: tc, denoms: []string{"uinit", "uusdc"}, initial: map[string]math.Int{}}
